@@ -23,7 +23,7 @@ for d in sorted(glob.glob('/verif/seeded/*/meta.json')):
     rows.append(f"| `seeded/{sid}` | {m['property']} | {summ} | {', '.join(oc['caught_by'])} | {note} |")
 head = ["| seeded change | property | what it changes | caught by | note |", "|---|---|---|---|---|"]
 intro = (f"{len(stats)} rounds ({len(rows)} changes). Round 1 and 2: one change per property each (round 2 was told which function round 1 had touched and had to break the property elsewhere). "
-         "Rounds 3 to 7: two changes per property each (round 7 for the ten properties with the most misses in round 6), told about all earlier ones and asked for different code and different clauses. Round 8 (second session, four handler/table properties, one change each under a 12-minute limit, told nothing about earlier rounds). "
+         "Rounds 3 to 7: two changes per property each (round 7 for the ten properties with the most misses in round 6), told about all earlier ones and asked for different code and different clauses. Round 8 (second session, eight properties, one change each under a 6-12 minute limit, told nothing about earlier rounds). "
          + " ".join(f"Round {r}: {v[0]} changes, {v[0]-v[1]} reported by the checks as they stood, {v[1]} missed at first." for r, v in sorted(stats.items()))
          + " Every miss led to the strengthening noted in the last column; after each strengthening all stored changes are re-run (`tools/seed_sweep.sh`, result in `seeded/SWEEP.txt`). "
          + (f"{len(unreported)} change(s) are still not reported by any check and are recorded as limits in §4: " + ", ".join(unreported) + ". " if unreported else "")
